@@ -801,9 +801,12 @@ def vec_store(M, interp, t, key, v, node):
     if getattr(t.back, 'readonly', False):
         raise AbsRaise(ExcVal('ValueError', ('assignment destination is read-only',)), node)
 
-    def write(pos, cond, e):
+    def write(pos, cond, e, keep_mask=False):
         e = cast_for(t, e)
         old = t.el(pos)
+        if keep_mask:
+            # numpy.ma.__setitem__ with a *masked* boolean index and an unmasked value writes the data only
+            e = El(e.d, old.m)
         g = X.f_and(live, cond)
         if g == X.TRUE:
             t.set(pos, e)
@@ -835,8 +838,9 @@ def vec_store(M, interp, t, key, v, node):
                 write(p, X.TRUE, e)
             return
         e = value_elements(M, interp, v, 1, node, t)[0]
+        keep = key.kind == 'ma' and t.kind == 'ma' and e.m is False
         for p, c in enumerate(conds):
-            write(p, c, e)
+            write(p, c, e, keep_mask=keep)
         return
     if isinstance(key, IndexSet):
         # integer index set derived from a boolean condition (np.where(c)[0] + k)
